@@ -114,6 +114,14 @@ fn run_bdd(seed: u64, budget: usize) -> ! {
             }
             if m.models == 0 && m.cmodels == 0 { record(format!("C13: models({:?}) = (0,0); history: {}", t, log.join("; "))); continue 'round; }
         }
+        // memo audit (C11 / C07): whatever the earlier operations left in the memo tables, restricting ANY issued handle by any
+        // variable still gives the cofactor
+        for (h, e) in hs.clone() {
+            for v in 0..NV { for val in [true, false] {
+                let r = bdd.restrict(h, Var(v), val);
+                if r.value() >= bdd.nodes.len() || tt_of(&bdd.nodes, r) != tt_restrict(e, v, val) { record(format!("C07/C11: restrict({:?},{},{}) is wrong after the history (a stale or wrong memo entry?); history: {}", h, v, val, log.join("; "))); continue 'round; }
+            } }
+        }
         // impact measures on a random term list
         let tl: Vec<Term> = (0..NV).map(|_| hs[rng.below(hs.len())].0).collect();
         let tts: Vec<TT> = tl.iter().map(|t| tt_of(&bdd.nodes, *t)).collect();
@@ -213,7 +221,14 @@ fn run_adf(seed: u64, budget: usize) -> ! {
     'round: for round in 0..budget {
         if n_found() >= 6 { break; }
         let n = 1 + rng.below(4);
-        let fs: Vec<F> = (0..n).map(|_| gen_f(&mut rng, n, 1 + (round % 3))).collect();
+        let mut fs: Vec<F> = (0..n).map(|_| gen_f(&mut rng, n, 1 + (round % 3))).collect();
+        // every fourth round: a symmetric ADF (the even / odd statements mirror each other): ties for the counting heuristics
+        if round % 4 == 3 && n >= 2 {
+            fn swap(f: &F, n: usize) -> F { match f { F::Atom(i) => F::Atom(if i ^ 1 < n { i ^ 1 } else { *i }), F::Top => F::Top, F::Bot => F::Bot, F::Not(a) => F::Not(Box::new(swap(a, n))),
+                F::And(a, b) => F::And(Box::new(swap(a, n)), Box::new(swap(b, n))), F::Or(a, b) => F::Or(Box::new(swap(a, n)), Box::new(swap(b, n))), F::Imp(a, b) => F::Imp(Box::new(swap(a, n)), Box::new(swap(b, n))),
+                F::Xor(a, b) => F::Xor(Box::new(swap(a, n)), Box::new(swap(b, n))), F::Iff(a, b) => F::Iff(Box::new(swap(a, n)), Box::new(swap(b, n))) } }
+            for i in (1..n).step_by(2) { fs[i] = swap(&fs[i - 1], n); }
+        }
         // statements declared in a random order of the ac facts (the variable order is the s() order)
         let mut text = String::new();
         for i in 0..n { text.push_str(&format!("s({}).", name(i))); }
@@ -285,11 +300,45 @@ fn run_adf(seed: u64, budget: usize) -> ! {
                 }
             }
         }
+        // C11: the ORDER in which the nogood search delivers its models on this warm object (grounded, complete, nine stable variants
+        // have run on it) equals the order on a freshly built object, for the deterministic heuristics
+        if !c05_hung {
+            for h in [Heuristic::Simple, Heuristic::MinModMinPathsMaxVarImp, Heuristic::MinModMaxVarImpMinPaths] {
+                let mut fresh = Adf::from_parser(&parser);
+                let a: Vec<V3> = fresh.stable_nogood(h).map(|v| tvs(&v)).collect();
+                let b: Vec<V3> = native.stable_nogood(h).map(|v| tvs(&v)).collect();
+                if a != b { fail(&format!("C11 stable_nogood({:?}) on a warm object delivers another sequence than on a fresh object", h), format!("{:?}", b), format!("{:?}", a)); }
+            }
+        }
         // C11: repeated call on the warm object
         if tvs(&native.grounded()) != g { fail("C11 grounded on a warm object", "different".into(), format!("{:?}", g)); }
         let again: Vec<V3> = native.stable().map(|v| tvs(&v)).collect();
         if sorted(again) != stable { fail("C11 stable on a warm object", "different".into(), format!("{:?}", stable)); }
         checked += 1;
+        // C11, larger symmetric instances (6 statements, mirrored pairs; no brute-force oracle needed): same delivery order of the
+        // nogood search on a fresh object and on one that has computed other semantics before
+        if round % 5 == 0 {
+            let m = 6;
+            let mut gs: Vec<F> = (0..m).map(|_| gen_f(&mut rng, m, 1 + (round % 2))).collect();
+            fn swp(f: &F) -> F { match f { F::Atom(i) => F::Atom(i ^ 1), F::Top => F::Top, F::Bot => F::Bot, F::Not(a) => F::Not(Box::new(swp(a))),
+                F::And(a, b) => F::And(Box::new(swp(a)), Box::new(swp(b))), F::Or(a, b) => F::Or(Box::new(swp(a)), Box::new(swp(b))), F::Imp(a, b) => F::Imp(Box::new(swp(a)), Box::new(swp(b))),
+                F::Xor(a, b) => F::Xor(Box::new(swp(a)), Box::new(swp(b))), F::Iff(a, b) => F::Iff(Box::new(swp(a)), Box::new(swp(b))) } }
+            for i in (1..m).step_by(2) { gs[i] = swp(&gs[i - 1]); }
+            let mut t2 = String::new();
+            for i in 0..m { t2.push_str(&format!("s({}).", name(i))); }
+            for i in 0..m { t2.push_str(&format!("ac({},{}).", name(i), show(&gs[i]))); }
+            let p2 = AdfParser::default();
+            if p2.parse()(&t2).is_ok() {
+                for h in [Heuristic::MinModMinPathsMaxVarImp, Heuristic::MinModMaxVarImpMinPaths, Heuristic::Simple] {
+                    let mut fresh = Adf::from_parser(&p2);
+                    let a: Vec<V3> = fresh.stable_nogood(h).map(|v| tvs(&v)).collect();
+                    let mut warm = Adf::from_parser(&p2);
+                    match rng.below(3) { 0 => { let _ = warm.stable().count(); } 1 => { let _ = warm.stable_nogood(Heuristic::Simple).count(); } _ => { let _ = warm.complete().count(); } }
+                    let b: Vec<V3> = warm.stable_nogood(h).map(|v| tvs(&v)).collect();
+                    if a != b { record(format!("C11 stable_nogood({:?}) on ADF `{}`: a warm object delivers {:?}, a fresh one {:?}", h, t2, b, a)); continue 'round; }
+                }
+            }
+        }
     }
     out(None, checked)
 }
